@@ -263,7 +263,13 @@ func genHead(t *rapid.T, maxLen int, seq int) []byte {
 	for i := range pad {
 		pad[i] = byte('a' + i%26)
 	}
-	return append([]byte(body), pad...)
+	out := append([]byte(body), pad...)
+	// the last byte before the newline: CR (senders that terminate lines with CR LF), blanks, NUL, a backslash - whatever
+	// it is, it belongs to the record on every path that emits one
+	if tail := rapid.SampledFrom([]string{"", "", "", "\r", "\r", " ", "\t", "\x00", "\\", "\r\r"}).Draw(t, "tail"); len(out)+len(tail) <= maxLen {
+		out = append(out, tail...)
+	}
+	return out
 }
 
 func genCont(t *rapid.T, maxLen int) []byte {
@@ -389,9 +395,11 @@ func enumSplits(yield func(Case) bool) {
 		mk(h("0", "a"), h("1", "b"), h("2", "c"), h("3", "d"), h("4", "e"), h("5", "f"), h("6", "g")),
 		mk(h("13", "x"), "<1634>1 2019-08-15T15:50:46.866915+03:00 not a head because of pri", h("13", "y")),
 	}
+	// a sender that terminates its lines with CR LF
+	streams = append([][][]byte{mk(h("13", "one\r"), h("14", "two\r"), h("163", "three\r"))}, streams...)
 	nStreams := len(streams)
 	if vh.Tier != "thorough" {
-		nStreams = 4
+		nStreams = 5
 	}
 	for si := 0; si < nStreams; si++ {
 		base := Case{Lines: streams[si], Soft: 128, MinBuf: 0}
@@ -429,7 +437,7 @@ func enumSplits(yield func(Case) bool) {
 func TestC08Framing(t *testing.T) {
 	vh.Run(t, vh.Spec[Case]{
 		Name: "reader", Gen: genCase(true), Run: run, Quick: 30000, Thorough: 300000, Enum: enumSplits, EnumOnlyShard0: true,
-		Rule: "streams of single- and multi-line records (heads with PRI of 1-3 digits; continuation lines incl. empty, head-like-but-short, 4-digit PRI, wrong version; leading garbage) through the real multiLineReader (hook H2) with soft limits 128/200/1000 and buffers of 3-4x; exhaustive: all 1- and 2-cut splits of fixed streams plus a flush after the first fragment; rapid: up to 12 cuts biased to line starts/ends, byte-wise delivery, up to 4 flushes; oracle = line-based reference framer: valid records equal, once and in order; with a flush between a head and its last continuation line the record is the head plus exactly the continuation lines completed before that flush; non-trivial = a cut inside a header / next to a newline, or a flush while a partial line is buffered",
+		Rule: "streams of single- and multi-line records (heads with PRI of 1-3 digits; lines ending in CR, blanks, NUL or a backslash; continuation lines incl. empty, head-like-but-short, 4-digit PRI, wrong version; leading garbage) through the real multiLineReader (hook H2) with soft limits 128/200/1000 and buffers of 3-4x; exhaustive: all 1- and 2-cut splits of fixed streams plus a flush after the first fragment; rapid: up to 12 cuts biased to line starts/ends, byte-wise delivery, up to 4 flushes; oracle = line-based reference framer: valid records equal, once and in order; with a flush between a head and its last continuation line the record is the head plus exactly the continuation lines completed before that flush; non-trivial = a cut inside a header / next to a newline, or a flush while a partial line is buffered",
 	})
 }
 
